@@ -182,20 +182,26 @@ def abstracts(projects):
 
 
 def gen_compiler_version(repo=None):
-    """coq/gen/CompilerVersion.v from the text of program_analysis/src/config.rs of the tree under test."""
+    """coq/gen/CompilerVersion.v from `program_analysis::config::COMPILER_VERSION` of the tree under test, as the
+    compiled constant answers (harness `front code`). Third audit: the text of config.rs is no longer read with a
+    regular expression (`pub static`, `ast::Version`, `4usize`, a trailing comma were false alarms); the line of
+    config.rs that mentions the constant is quoted in the generated file as a comment only."""
     repo = repo or common.REPO
-    path = os.path.join(repo, "program_analysis", "src", "config.rs")
-    text = open(path).read()
-    m = re.search(r"pub const COMPILER_VERSION\s*:\s*Version\s*=\s*\(\s*(\d+)\s*,\s*(\d+)\s*,\s*(\d+)\s*\)\s*;", text)
-    if not m:
-        raise common.BuildError("config.rs: COMPILER_VERSION not recognised", text[:400])
-    a, b, c = (int(x) for x in m.groups())
-    out = ("(* GENERATED by lib/c02front.py (gen_compiler_version) from the text of\n"
-           "   program_analysis/src/config.rs of the current tree:\n"
+    a, b, c = stage_codes()["compiler_version"]
+    line = ""
+    try:
+        for l in open(os.path.join(repo, "program_analysis", "src", "config.rs")):
+            if "COMPILER_VERSION" in l:
+                line = l.strip().replace("*)", "* )")
+                break
+    except OSError:
+        pass
+    out = ("(* GENERATED by lib/c02front.py (gen_compiler_version) from the value of\n"
+           "   program_analysis::config::COMPILER_VERSION of the current tree (harness `front code`):\n"
            "     %s\n"
            "   (the constant analysis_runner.rs hands to parser::parse_files).\n"
            "   Do not edit: rewritten on every run of ./check C02. *)\n"
-           "Definition compiler_version : nat * nat * nat := (%d, %d, %d).\n" % (m.group(0), a, b, c))
+           "Definition compiler_version : nat * nat * nat := (%d, %d, %d).\n" % (line, a, b, c))
     common.write_if_changed(os.path.join(common.COQ, "gen", "CompilerVersion.v"), out)
     return (a, b, c)
 
@@ -215,7 +221,7 @@ def parse_fail_code():
 
 
 # the codes of Model.FrontStages.codes, in the order of the model's `codes` field, with the numbers the check gives them
-STAGE_CODES = ["version_error", "no_version", "multiple_main", "tuple", "anonymous", "param_collision", "undefined"]
+STAGE_CODES = ["version_error", "no_version", "multiple_main", "tuple", "anonymous", "param_collision", "undefined", "same_symbol"]
 STAGE_ID_NUM = {k: 1001 + i for i, k in enumerate(STAGE_CODES)}
 STAGE_NAME_NUM = {k: 2001 + i for i, k in enumerate(STAGE_CODES)}
 
@@ -265,7 +271,7 @@ def stage_fields(a, t, st):
             p = paths[f["id"]]
             if not encodable(p):
                 return None
-            vers.append("%s,%s,%d" % (p, ".".join(str(x) for x in f["ver"]) if f["ver"] else "none", int(bool(f["main"]))))
+            vers.append("%s,%s,%d,%d" % (p, ".".join(str(x) for x in f["ver"]) if f["ver"] else "none", int(bool(f["main"])), f["id"]))
     if [f["id"] for f in sorted(st["files"], key=lambda f: f["id"])] != list(range(len(st["files"]))):
         return None
     if any("\t" in d or "\n" in d for d in st["defs"]):
@@ -281,6 +287,30 @@ def def_names(st):
         w = d.split(" ", 3)
         out.append(w[2])
     return out
+
+
+DEF_RE = re.compile(r"\b(template|function)(?:\s+(?:custom|parallel))*\s+([A-Za-z_$][A-Za-z0-9_$]*)\s*\(")
+
+
+def scan_definitions(text):
+    """Names of the definitions of a source text by a textual scan (comments removed): `template [custom|parallel] X(`,
+    `function f(`."""
+    text = re.sub(r"/\*.*?\*/", " ", text, flags=re.S)
+    text = re.sub(r"//[^\n]*", " ", text)
+    return [m.group(2) for m in DEF_RE.finditer(text)]
+
+
+def scan_definitions_of_files(st, t):
+    """Sorted names of the definitions in the text of every file of the FileLibrary that the single-file parser accepts."""
+    paths = {f["id"]: f["path"] for f in t["files"]}
+    out = []
+    for f in st["files"]:
+        if f.get("parsed"):
+            try:
+                out += scan_definitions(open(paths[f["id"]], encoding="utf-8").read())
+            except (OSError, UnicodeDecodeError, KeyError):
+                pass
+    return sorted(out)
 
 
 def class_table():
@@ -378,6 +408,9 @@ def stage_form(r):
         return "multiple_main"
     if len(labels) == 1 and (labels[0] in SUGAR_LABELS or re.match(r"Unknown template `.*` instantiated here\.$", labels[0], re.S)):
         return "sugar"
+    # Merger::add_definitions (since fix f1ec9dc two primary labels: the duplicate, then the first definition)
+    if labels and re.match(r"The name `.*` is already used\.$", labels[0], re.S):
+        return "duplicate"
     return None
 
 
@@ -420,7 +453,10 @@ def compare(projects, raw_truths):
     stage_in = stage_inputs(raw_truths)
     models = run_model(abss, raw_truths, stage_in)
     dis = []
-    sstats = {"compared": 0, "not_compared_duplicate_names": 0, "not_compared_not_encodable": 0, "not_compared_truth_panic": 0,
+    sstats = {"compared": 0, "not_compared_not_encodable": 0, "not_compared_truth_panic": 0,
+              "definition_sets_compared_with_a_textual_scan": 0, "definitions_scanned": 0, "projects_with_a_name_defined_twice": 0,
+              "defs_file_hypothesis_holds": 0, "defs_file_hypothesis_broken": [], "wf_project_holds": 0, "wf_project_broken": [],
+              "definitions_before_the_merger": 0, "definitions_kept_by_the_library": 0,
               "reports_compared_level_code_location": 0, "definitions_compared": 0, "definition_errors_compared": 0,
               "stage_reports_by_form": {}, "definition_errors_seen": {}, "metas_hypothesis_holds": 0,
               "metas_hypothesis_broken": [], "disagreements": 0, "codes": sc["codes"],
@@ -458,10 +494,20 @@ def compare(projects, raw_truths):
             if list(mcv) != list(sc["compiler_version"]):
                 dis.append({"project": p.describe(), "stage": True,
                             "model": {"compiler_version": mcv}, "impl": {"compiler_version": sc["compiler_version"]}})
+        if has_stage and stage_in[k] is not None:
+            # the definitions `harness front stages` hands to the model (single-file parser) against a textual scan of
+            # the files of the FileLibrary that parse: the same names, as often (ties the model's `defs_of` to the text)
+            scan = scan_definitions_of_files(stage_in[k], t)
+            got = sorted(def_names(stage_in[k]))
+            sstats["definition_sets_compared_with_a_textual_scan"] += 1
+            sstats["definitions_scanned"] += len(scan)
+            if scan != got:
+                dis.append({"project": p.describe(), "stage": True, "model": {"definitions handed to the model": got},
+                            "impl": {"definitions found by a textual scan of the files read": scan}})
+            if len(set(got)) != len(got):
+                sstats["projects_with_a_name_defined_twice"] += 1
         if not has_stage:
             sstats["not_compared_not_encodable"] += 1
-        elif len(set(def_names(stage_in[k]))) != len(def_names(stage_in[k])):
-            sstats["not_compared_duplicate_names"] += 1
         else:
             ns = normalise_stage(t, sstats)
             if ns is None:
@@ -476,6 +522,20 @@ def compare(projects, raw_truths):
                         sstats["metas_hypothesis_holds"] += 1
                     else:
                         sstats["metas_hypothesis_broken"].append(p.describe())
+                    # hypotheses of the tied theorems, evaluated on the MODEL's side of every project: every definition the
+                    # parser yields for file i carries file id i (defs_file_ok), and the project handed to the runner has
+                    # one definition per (kind, name) (wf_project, on the library the Merger / TemplateLibrary mirror keeps)
+                    if mstage.get("defs_file_ok", None) is False:
+                        sstats["defs_file_hypothesis_broken"].append(p.describe())
+                    elif mstage.get("defs_file_ok"):
+                        sstats["defs_file_hypothesis_holds"] += 1
+                    keys = [(kd, nm) for kd, nm, _ in mstage["defs"]]
+                    if len(set(keys)) == len(keys):
+                        sstats["wf_project_holds"] += 1
+                    else:
+                        sstats["wf_project_broken"].append(p.describe())
+                    sstats["definitions_before_the_merger"] += mstage.get("all_defs", 0)
+                    sstats["definitions_kept_by_the_library"] += mstage.get("kept", 0)
                 sstats["compared"] += 1
                 if ms != ns:
                     sstats["disagreements"] += 1
